@@ -614,7 +614,7 @@ pub fn c09(args: &Args) -> Report {
         p.times = if i % 5 == 3 { vec![100, 101, 4_102_444_800, 4_102_444_801, u64::MAX - 1, u64::MAX] } else if i % 5 == 1 { vec![0, 0, 1, 1, 2, 100] } else { vec![100, 101, 102, 103] };
         p.dvals = vec!["".into(), "x".into(), "x:".into(), "x:y".into(), "x\u{0}".into(), "x\u{0}\u{0}".into(), "y".into(), long_d(181, "a"), long_d(182, "a"), long_d(183, "ab"), long_d(183, "ac"), long_d(400, "z1"), long_d(400, "z2")];
         p.content_lens = vec![0, 3];
-        p.max_extra_tags = 1;
+        p.max_extra_tags = if i % 3 == 0 { 3 } else { 1 };
         let mut mix = Mix::base();
         mix.store_new = 70;
         mix.resubmit = 18;
@@ -1515,6 +1515,7 @@ pub fn c18(args: &Args) -> Report {
         let mut flags = base_flags();
         flags.derived_filters = i % 2 == 0;
         flags.reread_offsets = true; // ephemeral events: the offset reads back although nothing else finds them
+        flags.vanish_stores_request = true;
         let mut eng = Eng::new(&mut rep, "C18", "c18", args.seed(), i, flags, 2);
         let steps = 30 + rng.usize_below(50);
         for s in 0..steps {
@@ -1547,6 +1548,7 @@ pub fn c18(args: &Args) -> Report {
         rep.require("removed_present", "no present event removed");
         rep.require("removed_absent", "no absent id removed");
         rep.require("vanish_targets", "vanish had no target");
+        rep.require("vanish_requests_stored_before_vanish", "no vanish was preceded by storing its own request");
     }
     rep
 }
